@@ -15,7 +15,6 @@ from vf import build, coq, forest as F, mch, mcgen
 from vf.core import sh
 from props import c02
 
-KEY_SCOPE = "pg-rejected-trigger-scope"
 
 
 def gen_cfg(rng, shape=None):
@@ -121,8 +120,8 @@ def inproc(ctx):
         ctx.case(key=("sel", repr(cfg), tuple(evs)), tags=["sel-spec", "shape:" + cfg["shape"], "filter-spelling:" + facts] +
                  ["sel:-F" if any(t["filter"] for t in cfg["trig"].values()) else "sel:no-F",
                   "sel:-N" if any(not t["filter"] for t in cfg["trig"].values()) else "sel:no-N"], size=len(evs))
-    # stage-2 specification cases: -F / -N / -D / -t plus depth= and time= trigger actions (well-formed values;
-    # on the -pg shape a time= trigger only together with a filter or a depth= trigger: outside that the finding pg-rejected-trigger-scope)
+    # stage-2 specification cases: -F / -N / -C / -D / -t plus depth=, time=, size= and trace trigger actions (well-formed
+    # values), both shapes, no restriction on the combination
     sel2cases = []
     for i in range(ctx.n(50, 600)):
         cfg = {"shape": rng.choice(["pg", "cyg"]), "trig": {}, "pattern": rng.choice(["simple", "regex", "glob"])}
@@ -135,9 +134,9 @@ def inproc(ctx):
                 tr["as_action"] = facts == "all" or (facts == "mixed" and rng.random() < 0.5)
             if rng.random() < 0.45:
                 tr["depth"] = rng.choice([1, 1, 2, 3])
-            if rng.random() < 0.45 and (cfg["shape"] == "cyg" or "filter" in tr or "depth" in tr):
+            if rng.random() < 0.45:
                 tr["time"] = rng.choice([0, 1, 5, 10, 100])
-            if rng.random() < 0.25 and (cfg["shape"] == "cyg" or "filter" in tr or "depth" in tr):
+            if rng.random() < 0.25:
                 tr["size"] = rng.choice([20, 40, 60, 100])
             if rng.random() < 0.2:
                 tr["trace"] = True
@@ -156,6 +155,35 @@ def inproc(ctx):
         cases.append({"cfg": cfg, "forest": fo, "evs": evs, "res": res, "complete": True})
         ctx.case(key=("sel2", repr(cfg), tuple(evs)), tags=["sel2-spec", "shape:" + cfg["shape"]] +
                  sorted({"sel2:" + k for t in cfg["trig"].values() for k in t if k != "as_action"}), size=len(evs))
+    # -Z (record --size-filter) on top of the stage-2 option class: specification sel2 started with the size filter in force
+    zcases = []
+    for i in range(ctx.n(20, 250)):
+        cfg = {"shape": rng.choice(["pg", "cyg"]), "trig": {}, "pattern": rng.choice(["simple", "regex", "glob"]),
+               "min_size": rng.choice([20, 40, 60, 100, 300])}
+        for k in rng.sample(range(6), rng.randrange(0, 4)):
+            tr = {}
+            if rng.random() < 0.4:
+                tr["filter"] = rng.random() < 0.6
+            if rng.random() < 0.35:
+                tr["depth"] = rng.choice([1, 2, 3])
+            if rng.random() < 0.35:
+                tr["time"] = rng.choice([0, 1, 5, 10])
+            if rng.random() < 0.4:
+                tr["size"] = rng.choice([20, 40, 60, 100])
+            if rng.random() < 0.15:
+                tr["trace"] = True
+            if tr:
+                cfg["trig"][k] = tr
+        if rng.random() < 0.5:
+            cfg["depth"] = rng.choice([1, 2, 3, 4])
+        if rng.random() < 0.4:
+            cfg["threshold"] = rng.choice([1, 5, 10])
+        fo = F.assign_times(rng, F.gen_shape(rng, 6, rng.choice([4, 8, 16]), 5), durs=DURS)
+        evs = F.flatten(fo)
+        res = mcgen.run_case(h, cfg, evs)
+        zcases.append({"cfg": cfg, "forest": fo, "evs": evs, "res": res})
+        ctx.case(key=("sel2z", repr(cfg), tuple(evs)), tags=["sel2-spec", "sel2:-Z", "shape:" + cfg["shape"]] +
+                 sorted({"sel2:" + k for t in cfg["trig"].values() for k in t}), size=len(evs))
     # ---- evaluate in Coq
     terms = [mcgen.case_term(c["cfg"], c["evs"], c["res"]) for c in cases]
     defs = "Definition cases : list case4 := [\n%s\n].\n" % ";\n".join(terms)
@@ -184,20 +212,27 @@ def inproc(ctx):
     def opt(v, f="%d"):
         return "None" if v is None else "Some " + (f % v)
     sizes_term = "[%s]" % "; ".join("(%d, %d)" % (256 * i, z) for i, z in enumerate(mch.SIZES))
-    sel2_terms = ["ok_sel2 [%s] %s %s %s %d %d %s %s" % (
-        "; ".join("(%d, {| sf := %s; sd := %s; stm := %s; ssz := %s; str := %s; sc := %s |})" % (
+    def sel2_term(c, z=None):
+        tg = "; ".join("(%d, {| sf := %s; sd := %s; stm := %s; ssz := %s; str := %s; sc := %s |})" % (
             256 * k, "None" if t.get("filter") is None else "Some " + coq.coq_bool(t["filter"]),
             opt(t.get("depth")), opt(t.get("time")), opt(t.get("size")), coq.coq_bool(t.get("trace")),
-            coq.coq_bool(t.get("caller")))
-            for k, t in sorted(c["cfg"]["trig"].items())), sizes_term,
-        coq.coq_bool(any(t.get("filter") is True for t in c["cfg"]["trig"].values())),
-        coq.coq_bool(any(t.get("caller") for t in c["cfg"]["trig"].values())),
-        c["cfg"].get("depth") if c["cfg"].get("depth") is not None else 1024, c["cfg"].get("threshold") or 0,
-        F.coq_forest(c["forest"]), mcgen.coq_recs(c["res"]["recs"])) for c in sel2cases]
+            coq.coq_bool(t.get("caller"))) for k, t in sorted(c["cfg"]["trig"].items()))
+        return "%s [%s] %s %s %s %d %d %s%s %s" % (
+            "ok_sel2" if z is None else "ok_sel2z", tg, sizes_term,
+            coq.coq_bool(any(t.get("filter") is True for t in c["cfg"]["trig"].values())),
+            coq.coq_bool(any(t.get("caller") for t in c["cfg"]["trig"].values())),
+            c["cfg"].get("depth") if c["cfg"].get("depth") is not None else 1024, c["cfg"].get("threshold") or 0,
+            "" if z is None else "%d " % z, F.coq_forest(c["forest"]), mcgen.coq_recs(c["res"]["recs"]))
+    sel2_terms = [sel2_term(c) for c in sel2cases]
+    defs += "Definition zcases : list (N * case4) := [\n%s\n].\n" % ";\n".join(
+        "(%d, %s)" % (c["cfg"]["min_size"], mcgen.case_term(c["cfg"], c["evs"], c["res"])) for c in zcases)
+    defs += "Definition sel2zchk : list bool := [\n%s\n].\n" % ";\n".join(sel2_term(c, c["cfg"]["min_size"]) for c in zcases)
     defs += "Definition sel2chk : list bool := [\n%s\n].\n" % ";\n".join(sel2_terms)
     res = coq.run_cases(ctx, "c05_cases", mcgen.PRE, defs, [
         ("sel", "bad_indices (fun b : bool => b) selchk 0"),
         ("sel2", "bad_indices (fun b : bool => b) sel2chk 0"),
+        ("sel2z", "bad_indices (fun b : bool => b) sel2zchk 0"),
+        ("zmismatch", "bad_indices agree4z zcases 0"),
         ("mismatch", "bad_indices agree4 cases 0"),
         ("leaky", "bad_indices (fun c : case4 => let '(a, b, _, _) := c in negb (leaky a b)) cases 0"),
         ("scope", "bad_indices (fun c : case4 => let '(a, b, _, _) := c in negb (rejected_trigger a b)) cases 0"),
@@ -207,13 +242,13 @@ def inproc(ctx):
         ("plain", "bad_indices (fun b : bool => b) plainchk 0"),
         ("emb", "bad_indices (fun b : bool => b) embchk 0"),
         ("method", "bad_indices (fun p : cfg * list ev * list seen5 * list seen5 => let '(a, b, r1, r2) := p in "
-                   "rejected_trigger a b || list_eqb seen_eqb r1 r2) pairs 0"),
+                   "list_eqb seen_eqb r1 r2) pairs 0"),
     ], timeout=1500)
     if res is None:
         return
     R = {k: coq.parse_nat_list(v) for k, v in res.items()}
     ctx.extra["cases_leaving_a_rejected_change_behind"] = len(R["leaky"])      # must be 0 since the repair
-    ctx.extra["cases_in_rejected_trigger_scope_class"] = len(R["scope"])
+    ctx.extra["cases_with_a_rejected_call_whose_trigger_changes_state"] = len(R["scope"])
     ctx.extra["disagreements_checked"] = len(R["mismatch"])
     ctx.extra["plain_spec_checks"] = len(plain)
     ctx.extra["embedded_subhistory_checks"] = len(embi)
@@ -244,6 +279,19 @@ def inproc(ctx):
                       "triggers (specification sel2)",
                       {"mode": "inproc", "cfg": c["cfg"], "events": c["evs"], "impl_records": c["res"]["recs"],
                        "env": mch.cfg_env(c["cfg"])}, True)
+    for j in R["sel2z"][:2]:
+        c = zcases[j]
+        ctx.violation("C05: recorded trace differs from the documented semantics of -Z together with -F/-N/-D/-t and "
+                      "depth=/time=/size=/trace triggers (specification sel2 with the size filter in force)",
+                      {"mode": "inproc", "cfg": c["cfg"], "events": c["evs"], "impl_records": c["res"]["recs"],
+                       "env": mch.cfg_env(c["cfg"])}, True)
+    if R["zmismatch"] and not R["sel2z"]:
+        c = zcases[R["zmismatch"][0]]
+        ctx.violation("model and libmcount disagree on %d -Z case(s); the C05 checkers accept every explored "
+                      "implementation output" % len(R["zmismatch"]),
+                      {"correspondence": "UV.Mcount.Model (init_z) vs libmcount hooks (state after each hook + records)",
+                       "cfg": c["cfg"], "env": mch.cfg_env(c["cfg"]), "events": c["evs"],
+                       "impl_states": c["res"]["states"], "impl_records": c["res"]["recs"]}, False)
     for j in R["method"][:2]:
         p = pairs[j]
         ctx.violation("C05: recorded trace depends on the instrumentation method",
@@ -259,32 +307,28 @@ def inproc(ctx):
 
 
 def known_leak(ctx):
-    """regression witnesses of the repaired defect pg-reject-leak (Restore.v leak_cfg / leak2_cfg) and the witness of
-    the narrower finding that remains: a rejected -pg call's time= trigger does not reach its callees"""
+    """regression witnesses of the repaired defect pg-reject-leak (Restore.v leak_cfg / leak2_cfg) and of its second half
+    (a rejected -pg call's time= / size= trigger did not reach its callees)"""
     h = mch.Harness(ctx)
     w1 = ({"trig": {1: {"time": 1000}}, "depth": 1}, [("E", 0, 100), ("E", 1, 110), ("X", 1, 120), ("X", 0, 200)])
     w2 = ({"trig": {1: {"depth": 0}}}, [("E", 0, 100), ("E", 1, 110), ("X", 1, 120), ("E", 2, 130), ("X", 2, 140),
                                         ("X", 0, 200)])
-    for cfg, evs in (w1, w2):
+    # main{ b{ c } } with -D 1, b@time=1000, c@depth=1: b is beyond -D; its frame carries the threshold to c (c runs
+    # 10 ns: hidden) under either instrumentation method
+    w3 = ({"trig": {1: {"time": 1000}, 2: {"depth": 1}}, "depth": 1},
+          [("E", 0, 100), ("E", 1, 110), ("E", 2, 120), ("X", 2, 130), ("X", 1, 140), ("X", 0, 200)])
+    # main{ b{ c } c } with b@depth=0: b and what it calls are hidden, the later c is shown
+    w4 = ({"trig": {1: {"depth": 0}}}, [("E", 0, 100), ("E", 1, 110), ("E", 2, 115), ("X", 2, 118), ("X", 1, 120),
+                                        ("E", 2, 130), ("X", 2, 140), ("X", 0, 200)])
+    for cfg, evs in (w1, w2, w3, w4):
         r_pg = mcgen.run_case(h, dict(cfg, shape="pg"), evs)
         r_cyg = mcgen.run_case(h, dict(cfg, shape="cyg"), evs)
         ctx.case(key=("fixed-leak", repr(cfg)), tags=["regression:pg-reject-leak"])
         if r_pg["recs"] != r_cyg["recs"] or not r_pg["recs"]:
-            ctx.violation("C05: a -pg call rejected after its trigger changed the filter state leaves the change behind "
-                          "(regression of the repaired defect pg-reject-leak)",
+            ctx.violation("C05: a -pg call rejected after its trigger changed the filter state leaves the change behind, or "
+                          "does not apply it to its callees (regression of the repaired defect pg-reject-leak)",
                           {"mode": "leak-witness", "cfg": cfg, "events": evs, "pg_records": r_pg["recs"],
                            "cyg_records": r_cyg["recs"]}, True)
-    # what remains: main{ b{ c } } with -D 1, b@time=1000, c@depth=1: b is beyond -D; under cygprof its frame carries the
-    # threshold to c (c runs 10 ns: hidden), under -pg nothing of b is kept (c is shown)
-    w3 = ({"trig": {1: {"time": 1000}, 2: {"depth": 1}}, "depth": 1},
-          [("E", 0, 100), ("E", 1, 110), ("E", 2, 120), ("X", 2, 130), ("X", 1, 140), ("X", 0, 200)])
-    r_pg = mcgen.run_case(h, dict(w3[0], shape="pg"), w3[1])
-    r_cyg = mcgen.run_case(h, dict(w3[0], shape="cyg"), w3[1])
-    ctx.case(key=("known-scope", repr(w3[0])), tags=["known:" + KEY_SCOPE])
-    ctx.known_finding(KEY_SCOPE, "on the -pg/fentry path a call rejected by the depth limit keeps no frame, so its time= / "
-                      "size= trigger does not reach its callees, while under -finstrument-functions it does: the recorded "
-                      "trace depends on the instrumentation method", still_fails=(r_pg["recs"] != r_cyg["recs"]),
-                      replay={"witness": w3, "pg_records": r_pg["recs"], "cyg_records": r_cyg["recs"]})
 
 
 # ---------------------------------------------------------------- end-to-end (-F / -N / -D on real programs)
@@ -307,7 +351,7 @@ def e2e(ctx, objdir):
         # options: -F / -N on function classes (suffix _f<k>), -D
         trig = {}
         opts = []
-        present = sorted({int(n.rsplit("_f", 1)[1]) for n in names.values()})
+        present = sorted({int(n.rsplit("_f", 1)[1]) for n in names.values() if isinstance(n, str)})
         ks = rng.sample(present, min(len(present), rng.randrange(1, 3)))     # a pattern that matches nothing
                                                                              # does not count as a filter
         facts = rng.choice(["none", "all", "mixed"])
@@ -388,7 +432,7 @@ def meta(ctx):
         "exercised by the tie but not modelled; one trigger spec per function",
         "source-location filters (-L), finish, recover, argument capture and events are outside this model",
         "refinement to the documented semantics is proved for -F/-N/-C/-D/-t and the trigger actions filter/notrace/"
-        "depth=(>0)/time=/size=/trace (specifications sel, sel2; the -pg shape under pg_guard, outside it the finding pg-rejected-trigger-scope); "
+        "depth=(>0)/time=/size=/trace (specifications sel, sel2, both instrumentation shapes); "
         "trace_on/trace_off, finish, -L and depth=0 are tied by correspondence + the restoration and embedded-sub-history "
         "theorems only",
         "theorems quantify over complete call forests within --max-stack and clock readings < 2^64 that do not go "
